@@ -28,6 +28,8 @@ def _install():
 def worker(cfg, tier='quick'):
     if cfg.startswith('metropolis'):
         return w_metropolis(cfg, tier)
+    if cfg.startswith('fp '):
+        return w_fp(cfg, tier)
     _install()
     from panqec.error_models import PauliErrorModel, BaseErrorModel
     col = hz.Collector(cfg)
@@ -74,6 +76,17 @@ def worker(cfg, tier='quick'):
             r, obs, cl = p.value
             want_kind = 'sum' if log_output else 'prod'
             red = [a for k, a in obs if k == want_kind]
+            log_of_product = False
+            if log_output and not red:
+                # ln(prod of the factors): equal to the sum of logs over the reals (this model); where the two
+                # differ -- underflow of the product in double precision -- is the subject of C18/fp/*
+                red = [a for k, a in obs if k == 'prod']
+                rt = term_of(r, 'real') if isinstance(r, SymReal) else None
+                if len(red) == 1 and rt is not None and z3.is_app(rt) and rt.decl().name() == 'ln':
+                    pt = term_of(np.multiply.reduce(np.asarray(red[0]).view(np.ndarray).reshape(-1)), 'real')
+                    log_of_product = z3.is_true(z3.simplify(rt.arg(0) == pt))
+                if not log_of_product:
+                    red = []
             ok_struct = len(red) == 1 and np.asarray(red[0]).shape == (n,) and len(cl) == 1 \
                 and cl[0][0] is code and cl[0][1] == 0.1
             bad_struct.append(z3_and(p.pc + [z3.BoolVal(not ok_struct)]))
@@ -84,7 +97,7 @@ def worker(cfg, tier='quick'):
             for i in range(n):
                 x, z = E[i], E[n + i]
                 spec = z3.If(x, z3.If(z, Q['Y'][i], Q['X'][i]), z3.If(z, Q['Z'][i], Q['I'][i]))
-                if log_output:
+                if log_output and not log_of_product:
                     from symx.core import uf
                     spec = uf('ln')(spec)
                     # ln is uninterpreted: compare its arguments when the cell is ln(arg)
@@ -100,12 +113,80 @@ def worker(cfg, tier='quick'):
                   wit, 'factor i = q_I / q_X / q_Y / q_Z according to (x_i, z_i); all errors, all distributions')
         col.prove(f'C18/{tag}/result-is-{"sum-of-logs" if log_output else "product"}-of-the-n-factors', base,
                   z3_or(bad_struct), wit,
-                  'exactly one reduction over the n per-qubit factors; distribution taken once from '
-                  'probability_distribution(code, error_rate) (the one generate() samples from)')
+                  'exactly one reduction over the n per-qubit factors (log form: sum of logs, or the log of their '
+                  'product, equal over the reals); distribution taken once from probability_distribution(code, '
+                  'error_rate) (the one generate() samples from)')
     # normalisation: the four letters' factors sum to 1 per qubit (=> sum over 4^n errors is 1)
     col.prove('C18/spec/four-letters-sum-to-one-per-qubit', base,
               z3_or([Q['I'][i] + Q['X'][i] + Q['Y'][i] + Q['Z'][i] != 1 for i in range(n)]), wit,
               'with the per-letter factors above, the 4^n products sum to prod_i (q_I+q_X+q_Y+q_Z) = 1')
+    return col.result()
+
+
+FP_ERRORS = {'identity': lambda n: [0] * (2 * n),
+             'mixed': lambda n: [(1, 0, 1, 0)[i % 4] for i in range(n)] + [(0, 0, 1, 1)[i % 4] for i in range(n)],
+             'all-Y': lambda n: [1] * (2 * n)}
+
+
+def w_fp(cfg, tier):
+    """cfg = 'fp <code> <error>': error_probability(log_output=True) in IEEE double precision.  The
+    per-qubit channel probabilities are arbitrary doubles in (0, 1]; the error is one of three concrete
+    patterns (the statement does not depend on the letters).  np.log is libm's contract (fp_ln_contract).
+    Obligation: the log-probability of an error whose factors are all positive is finite -- the true
+    logarithm is (>= -745.14 n); a log taken after the product has underflowed is -inf."""
+    import struct
+    from symx import core
+    from symx.core import SymFP
+    _install()
+    from panqec.error_models import PauliErrorModel, BaseErrorModel
+    _, cname, ename = cfg.split(' ')
+    code = common.make_code(cname)
+    n = code.n
+    col = hz.Collector(cfg, timeout_ms=300000)
+    col.encoded(BaseErrorModel.error_probability)
+    F64 = z3.Float64()
+    fv = lambda v: z3.FPVal(v, F64)
+    Qb = {s: [z3.BitVec(f'b{s}_{i}', 64) for i in range(n)] for s in 'IXYZ'}
+    Q = {s: [z3.fpBVToFP(b, F64) for b in Qb[s]] for s in 'IXYZ'}
+    base = [c for s in 'IXYZ' for t in Q[s] for c in (z3.fpGT(t, fv(0.0)), z3.fpLEQ(t, fv(1.0)))]
+    e = np.array(FP_ERRORS[ename](n), dtype=np.uint8)
+
+    class Model(PauliErrorModel):
+        def probability_distribution(self, code_, error_rate):
+            return tuple(as_sa([SymFP(t) for t in Q[s]]) for s in 'IXYZ')
+    del core.FP_LN_APPS[:]
+    eng = Engine(name=cfg)
+    with eng:
+        ps = eng.explore(lambda: BaseErrorModel.error_probability(Model(1 / 3, 1 / 3, 1 / 3), e, code, 0.1,
+                                                                  log_output=True))
+    col.absorb(eng)
+    contract = core.fp_ln_contract()
+    names = [f'b{s}_{i}' for s in 'IXYZ' for i in range(n)]
+    for p in ps:
+        if p.exc is not None or not isinstance(p.value, SymFP):
+            col.record('C18/fp/log-form-is-a-double', 'sat' if p.exc is not None else 'unknown', 0, True, None,
+                       f'{type(p.exc).__name__ if p.exc is not None else type(p.value).__name__}: {p.exc}')
+            continue
+        r = p.value.t
+        terms = base + contract + p.pc + [z3.Or(z3.fpIsInf(r), z3.fpIsNaN(r))]
+        try:
+            v, vals, dt = col.solve_cvc5(terms, 300000, want=names, logic='QF_UFBVFP')
+        except Exception as ex:     # noqa
+            v, vals, dt = 'unknown', {}, 0.0
+            col.notes.append(f'cvc5: {type(ex).__name__}: {ex}'[:300])
+        wit = None
+        if v == 'sat':
+            q = {s: [struct.unpack('<d', struct.pack('<Q', vals[f'b{s}_{i}']))[0].hex() for i in range(n)]
+                 for s in 'IXYZ'}
+            wit = dict(error=e.tolist(), q_hex=q, fp=True)
+        col.record('C18/fp/log-form-of-a-possible-error-is-finite', v, dt, True, wit,
+                   f'double precision, n={n}, error pattern {ename}: all factors in (0,1] => log form is finite '
+                   f'(decided by cvc5, QF_UFBVFP, {len(core.FP_LN_APPS)} instances of the np.log contract)')
+        o = col.obs[-1]
+        o['decided_by'] = 'cvc5'
+        rr, _, dt2 = col.solve_cvc5(base + contract + p.pc, 60000, logic='QF_UFBVFP')
+        col.record('C18/fp/reach', {'sat': 'reachable', 'unsat': 'vacuous'}.get(rr, 'unknown'), dt2, True, None,
+                   'assumptions + np.log contract satisfiable', kind='reach')
     return col.result()
 
 
@@ -235,6 +316,24 @@ def replay(path):
         bad = any(o['oid'] == oid and o['verdict'] == 'sat' for o in res['obs'])
         print('REPLAY', 'reproduced' if bad else 'not-reproduced', oid, cfg)
         return 0
+    if w.get('fp'):
+        import math
+        code = common.make_code(cfg.split(' ')[1])
+        n = code.n
+        e = np.array(w['error'], dtype=np.uint8)
+        q = {s: [float.fromhex(x) for x in w['q_hex'][s]] for s in 'IXYZ'}
+
+        class ModelF(PauliErrorModel):
+            def probability_distribution(self, code_, error_rate):
+                return tuple(np.array(q[s]) for s in 'IXYZ')
+        fac = [q[{(0, 0): 'I', (1, 0): 'X', (1, 1): 'Y', (0, 1): 'Z'}[(int(e[i]), int(e[n + i]))]][i] for i in range(n)]
+        with np.errstate(divide='ignore'):
+            got = ModelF(1 / 3, 1 / 3, 1 / 3).error_probability(e, code, 0.1, log_output=True)
+        ref = sum(math.log(f) for f in fac) if all(f > 0 for f in fac) else None
+        print('factors', fac, 'log form', got, 'sum of the logs of the factors', ref)
+        bad = ref is not None and not np.isfinite(got)
+        print('REPLAY', 'reproduced' if bad else 'not-reproduced', oid, cfg)
+        return 0
     code = common.make_code(cfg)
     n = code.n
     e = np.array(w['error'], dtype=np.uint8)
@@ -267,6 +366,9 @@ def replay(path):
 
 def configs(tier):
     c = ['RotatedPlanar2DCode(2,2)', 'Toric2DCode(2,3)', 'Toric3DCode(2,2,2)/XZZX/z', 'metropolis RotatedPlanar2DCode(2,2)']
+    c += [f'fp RotatedPlanar2DCode(2,2) {e}' for e in FP_ERRORS]
+    if tier != 'quick':
+        c += [f'fp Toric2DCode(2,2) {e}' for e in FP_ERRORS] + ['fp Planar2DCode(2,3) mixed']
     if tier != 'quick':
         c += ['metropolis Planar2DCode(2,2)', 'Planar2DCode(3,3)/XY', 'RhombicPlanarCode(2,2,2)/Checkerboard_XZZX', 'XCubeCode(2,2,2)',
               'Color666PlanarCode(2,2)', 'RotatedPlanar3DCode(3,3,3)']
